@@ -194,8 +194,11 @@ class ParserRoles:
                                 "append", "extend", "insert", "remove", "pop", "clear", "sort")) or (
                                 isinstance(par, ast.AugAssign) and par.target is n) or (isinstance(par, ast.Subscript) and isinstance(par.ctx, (ast.Store, ast.Del))):
                             writers.add(f.name)
-            if writers <= {"__init__"}:
-                return "a copy of self.%s, which only the constructor writes" % src.attr
+            running = {g.name for g in self.reachable() if g.cls is self.Parser}
+            config = {w for w in writers if w == "__init__" or (not w.startswith("_") and w not in running)}
+            if writers <= config:
+                return "a copy of self.%s, which only the constructor%s writes" % (
+                    src.attr, "" if writers <= {"__init__"} else " and the configuration method(s) %s (never run by parse)" % sorted(writers - {"__init__"}))
         return None
 
     def an(self, role):
